@@ -366,8 +366,23 @@ func checkSelection(c selCase, labels map[string]int) (string, bool) {
 		}
 	}
 	outs := []string{filepath.Join(tmp, "out1"), filepath.Join(tmp, "out2")}
-	for _, o := range outs {
+	for i, o := range outs {
 		os.MkdirAll(o, 0o755)
+		if i == 1 {
+			// the second run writes over existing, longer generated files
+			// (the documented use: the output directory is the library
+			// tree, which already holds the previous output)
+			for _, n := range []string{"messages.go", "types.go", "profile.go", "types_string.go"} {
+				old, _ := os.ReadFile(filepath.Join(hx.RepoDir(), n))
+				for len(old) < 1500000 {
+					old = append(old, "// stale line of an earlier, longer output\n"...)
+				}
+				if err := os.WriteFile(filepath.Join(o, n), old, 0o644); err != nil {
+					return "HARNESS: " + err.Error(), false
+				}
+			}
+			labels["second run over existing longer files"]++
+		}
 		log, err := runFitgen(bin, input, c.Version, o, c.ViaZip, c.ZipOverride)
 		if err != nil {
 			tail := log
@@ -385,7 +400,7 @@ func checkSelection(c selCase, labels map[string]int) (string, bool) {
 			return fmt.Sprintf("fitgen did not write %s (%v %v)", n, err1, err2), false
 		}
 		if !bytes.Equal(a, bb) {
-			return fmt.Sprintf("two runs on the same input wrote different %s (%d vs %d bytes; first difference at byte %d)", n, len(a), len(bb), firstDiff(a, bb)), false
+			return fmt.Sprintf("two runs on the same input wrote different %s (%d bytes into an empty directory vs %d bytes over an existing file; first difference at byte %d)", n, len(a), len(bb), firstDiff(a, bb)), false
 		}
 	}
 	structs, table, major, minor, sdkc, err := parseGenerated(outs[0])
